@@ -7,6 +7,7 @@ package main
 import (
 	"fmt"
 	"os"
+	"regexp"
 	"sort"
 	"go/constant"
 	"go/token"
@@ -67,6 +68,7 @@ func (ex *Exec) calleeKey(st *State, c *ssa.CallCommon) (key string, fn *ssa.Fun
 
 func (ex *Exec) doCall(st *State, fr *Frame, ins ssa.Instruction, c *ssa.CallCommon, k Kont) {
 	ex.curCall = ins
+	ex.countSite(st, fr, ins, c)
 	var args []Val
 	if c.IsInvoke() {
 		args = append(args, ex.get(st, c.Value))
@@ -309,13 +311,20 @@ func (ex *Exec) applyContract(st *State, fr *Frame, ct *Contract, key string, ar
 		}
 	}
 	vars := ex.bindParams(ct, fnParams, args)
+	var capCells []*Cell // captured cells the closure assigns
+	var capNames []string
 	if ex.pendingFn != nil && ex.pendingFn.String() == key {
 		// closure with a contract: captured variables by name
+		stored := storedFreeVars(ex.pendingFn)
 		for i, fv := range ex.pendingFn.FreeVars {
 			if i < len(ex.pendingBinds) {
 				b := ex.pendingBinds[i]
 				if b.Kind == VCellPtr {
 					vars[fv.Name()] = st.cells[b.Cell]
+					if stored[fv] {
+						capCells = append(capCells, b.Cell)
+						capNames = append(capNames, fv.Name())
+					}
 				} else {
 					vars[fv.Name()] = b
 				}
@@ -324,7 +333,7 @@ func (ex *Exec) applyContract(st *State, fr *Frame, ct *Contract, key string, ar
 	}
 	ex.pendingBinds, ex.pendingFn = nil, nil
 	old := st.snapshot()
-	env := &Env{ex: ex, st: st, old: old, vars: vars, fr: fr, pkg: ex.pkgOfKey(key), calleeCtx: true}
+	env := &Env{ex: ex, st: st, old: old, vars: vars, fr: fr, pkg: ex.pkgOfKey(key), calleeCtx: true, siteFn: key}
 	for _, r := range ct.Requires {
 		t, err := ex.evalSpecBool(r.Expr, env)
 		if err != nil {
@@ -337,6 +346,7 @@ func (ex *Exec) applyContract(st *State, fr *Frame, ct *Contract, key string, ar
 	// call-site obligations of the function under verification
 	ex.callsiteObligations(st, fr, key, short, ord, args, pos)
 	// havoc the frame
+	ex.curFr = fr
 	if ct.HasMod {
 		for _, m := range ct.Modifies {
 			if err := ex.havocLvalue(st, m, env); err != nil {
@@ -358,9 +368,20 @@ func (ex *Exec) applyContract(st *State, fr *Frame, ct *Contract, key string, ar
 	allocBefore := st.allocCtr
 	st.bumpAlloc()
 	var rets []Val
-	post := &Env{ex: ex, st: st, old: old, vars: map[string]Val{}, fr: fr, pkg: env.pkg, calleeCtx: true}
+	post := &Env{ex: ex, st: st, old: old, vars: map[string]Val{}, fr: fr, pkg: env.pkg, calleeCtx: true, siteFn: key}
 	for n, v := range vars {
 		post.vars[n] = v
+	}
+	if len(capCells) > 0 {
+		// the closure may assign these captured variables: their post values
+		// are constrained only by its ensures; old(name) is the value before
+		post.oldVars = map[string]Val{}
+		for i, c := range capCells {
+			post.oldVars[capNames[i]] = vars[capNames[i]]
+			nv := ex.havocVal(st, "cap_"+capNames[i], c.Ty)
+			st.cells[c] = nv
+			post.vars[capNames[i]] = nv
+		}
 	}
 	for i := 0; i < sig.Results().Len(); i++ {
 		rt := sig.Results().At(i).Type()
@@ -395,6 +416,9 @@ func (ex *Exec) applyContract(st *State, fr *Frame, ct *Contract, key string, ar
 		// with: they are discharged in the callee's own verification
 		t, err := ex.evalSpecBool(e.Expr, post)
 		if err != nil {
+			if ex.mentionsCalleeLocal(key, err) {
+				continue // clause about the callee's own locals: internal to its proof
+			}
 			ex.errors = append(ex.errors, fmt.Sprintf("%s: ensures %s of %s: %v", funcKey(ex.top), e.Label, key, err))
 			continue
 		}
@@ -534,6 +558,15 @@ func protectedHeap(name string) bool {
 	if strings.HasPrefix(name, "g|") {
 		return true // ghost globals
 	}
+	if strings.HasPrefix(name, "G|") {
+		// ghost fields: only the I/O ghosts of streams can be affected by code
+		// we know nothing about (it may read or write a stream it was given)
+		switch name {
+		case "G|$out", "G|$rem", "G|$bufd":
+			return false
+		}
+		return true
+	}
 	if strings.HasPrefix(name, "F|"+repoPrefix) {
 		parts := strings.Split(name, "|")
 		if len(parts) == 3 && parts[2] != "" {
@@ -623,7 +656,12 @@ func (ex *Exec) instrMods(ins ssa.Instruction, ms *ModSet, depth int) {
 		case *ssa.FieldAddr:
 			if s, sty, ok := structOf(a.X.Type()); ok {
 				f := s.Field(a.Field)
-				ms.write(fieldHeapName(sty, f), ArraySort(sortOf(f.Type())))
+				if _, fresh := a.X.(*ssa.Alloc); fresh {
+					// field of an object allocated in this function (composite literal)
+					ms.alloc(fieldHeapName(sty, f), ArraySort(sortOf(f.Type())))
+				} else {
+					ms.write(fieldHeapName(sty, f), ArraySort(sortOf(f.Type())))
+				}
 			}
 		case *ssa.IndexAddr:
 			if isFreshArrayBase(a.X) {
@@ -737,6 +775,14 @@ func (ex *Exec) callMods(c *ssa.CallCommon, ms *ModSet, depth int) {
 		return
 	}
 	key, fn := ex.calleeKey(nil, c)
+	if fn == nil && !c.IsInvoke() && ex.topC != nil && len(ex.topC.Pure) > 0 {
+		// call through a parameter declared pure: no effects
+		if u, ok := c.Value.(*ssa.UnOp); ok && u.Op == token.MUL {
+			if a, ok := u.X.(*ssa.Alloc); ok && ex.topC.Pure[a.Comment] {
+				return
+			}
+		}
+	}
 	if fn == nil && !c.IsInvoke() {
 		// call through a local variable that only ever holds one closure
 		if f := resolveClosureVar(c.Value); f != nil {
@@ -919,6 +965,7 @@ func (ex *Exec) havocLvalue(st *State, m string, env *Env) error {
 		}
 		hn := fieldHeapName(sty, f)
 		fs := sortOf(f.Type())
+		ex.writeCheck(st, ex.curFr, hn, base.T, TrueT, "callee writes "+m, "")
 		h := st.heap(hn, ArraySort(fs))
 		nv := st.fresh("hv_"+x.Sel, fs)
 		ex.assumeTypeInv(st, nv, f.Type())
@@ -952,6 +999,7 @@ func (ex *Exec) havocLvalue(st *State, m string, env *Env) error {
 		if sl, ok := v.Ty.Underlying().(*types.Slice); ok {
 			es = sortOf(sl.Elem())
 		}
+		ex.writeCheck(st, ex.curFr, memName(es), SlRg(v.T), Gt(hi, lo), "callee writes "+m, "")
 		ex.havocWindow(st, SlRg(v.T), Add(SlOff(v.T), lo), Add(SlOff(v.T), hi), es)
 		return nil
 	}
@@ -963,6 +1011,7 @@ func (ex *Exec) havocPointee(st *State, v Val) error {
 		if et, ok := derefPtr(v.Ty); ok {
 			if arr, ok := et.Underlying().(*types.Array); ok {
 				es := sortOf(arr.Elem())
+				ex.writeCheck(st, ex.curFr, memName(es), v.T, TrueT, "callee writes pointee", "")
 				mm := st.heap(memName(es), memSort(es))
 				na := st.fresh("hvarr", ArraySort(es))
 				st.setHeap(memName(es), Store(mm, v.T, na))
@@ -1118,6 +1167,7 @@ func (ex *Exec) doAppend(st *State, fr *Frame, s, t Val, sty, tty types.Type) Va
 		}
 		return na
 	}
+	ex.writeCheck(st, fr, memName(es), SlRg(s.T), fits, "append in place", "")
 	naA := mkCase("A", SlOff(s.T))
 	// in place: everything outside the appended window is unchanged
 	baseA := Add(SlOff(s.T), SlLen(s.T))
@@ -1167,6 +1217,7 @@ func (ex *Exec) doCopy(st *State, fr *Frame, d, s Val, sty types.Type) Val {
 			srcBytes = BOf(Select(m, SlRg(s.T)), SlOff(s.T), nn)
 		}
 	}
+	ex.writeCheck(st, fr, memName(es), SlRg(d.T), Gt(nn, IntLit(0)), "copy", "")
 	na := ex.havocWindow(st, SlRg(d.T), lo, hi, es)
 	st.emit(fmt.Sprintf("(assert (forall ((k Int)) (! (=> (and (<= %s k) (< k %s)) (= (select %s k) %s)) :pattern ((select %s k)))))",
 		lo.S, hi.S, na.S, src, na.S))
@@ -1551,4 +1602,127 @@ func (ex *Exec) staticOrdinal(fn *ssa.Function, ins ssa.Instruction, key string)
 		ex.siteOrd[fn] = m
 	}
 	return m[ins]
+}
+
+// mentionsCalleeLocal: the evaluation error is an unknown identifier that
+// names a local variable of the callee.
+func (ex *Exec) mentionsCalleeLocal(key string, err error) bool {
+	msg := err.Error()
+	const pfx = "unknown identifier \""
+	i := strings.Index(msg, pfx)
+	if i < 0 {
+		return false
+	}
+	name := msg[i+len(pfx):]
+	if j := strings.Index(name, "\""); j >= 0 {
+		name = name[:j]
+	}
+	f := ex.findFunc(key)
+	if f == nil {
+		return false
+	}
+	for _, b := range f.Blocks {
+		for _, ins := range b.Instrs {
+			if a, ok := ins.(*ssa.Alloc); ok && a.Comment == name {
+				return true
+			}
+		}
+	}
+	return false
+}
+
+var callsRe = regexp.MustCompile(`calls\("([^"]+)",\s*(\d+)\)`)
+
+// trackedSites: the call sites whose execution count the contract mentions
+// through calls("callee", k).
+func trackedSites(c *Contract) map[string]bool {
+	out := map[string]bool{}
+	if c == nil {
+		return out
+	}
+	add := func(text string) {
+		for _, m := range callsRe.FindAllStringSubmatch(text, -1) {
+			out[m[1]+"#"+m[2]] = true
+		}
+	}
+	for _, cl := range c.Requires {
+		add(cl.Text)
+	}
+	for _, cl := range c.Ensures {
+		add(cl.Text)
+	}
+	for _, cl := range c.CallReqs {
+		add(cl.Text)
+	}
+	for _, l := range c.Loops {
+		for _, cl := range l.Invariants {
+			add(cl.Text)
+		}
+	}
+	return out
+}
+
+func siteHeap(fnKey, name string, k int) string { return fmt.Sprintf("g|$site:%s:%s#%d", fnKey, name, k) }
+
+// siteNameOf: the tracked name matching this callee key, if any.
+func (ex *Exec) siteNameOf(fr *Frame, key string, ord int) string {
+	if fr.contract == nil {
+		return ""
+	}
+	for t := range ex.tracked(fr.contract) {
+		i := strings.LastIndex(t, "#")
+		name, k := t[:i], t[i+1:]
+		if k != fmt.Sprint(ord) {
+			continue
+		}
+		short := contractShort(key)
+		if name == short || name == key || strings.HasSuffix(key, "."+name) || strings.HasSuffix(key, ")."+name) {
+			return name
+		}
+	}
+	return ""
+}
+
+func (ex *Exec) tracked(c *Contract) map[string]bool {
+	if m, ok := ex.trackCache[c]; ok {
+		return m
+	}
+	m := trackedSites(c)
+	ex.trackCache[c] = m
+	return m
+}
+
+// countSite increments the ghost execution counter of a tracked call site.
+func (ex *Exec) countSite(st *State, fr *Frame, ins ssa.Instruction, c *ssa.CallCommon) {
+	if fr.contract == nil || len(ex.tracked(fr.contract)) == 0 {
+		return
+	}
+	key, f := ex.calleeKey(st, c)
+	if f == nil && !c.IsInvoke() {
+		if rf := resolveClosureVar(c.Value); rf != nil {
+			key = rf.String()
+		}
+	}
+	ord := ex.staticOrdinal(fr.fn, ins, key)
+	name := ex.siteNameOf(fr, key, ord)
+	if name == "" {
+		return
+	}
+	hn := siteHeap(fr.fn.String(), name, ord)
+	cur := st.heap(hn, SortInt)
+	st.setHeap(hn, Add(cur, IntLit(1)))
+}
+
+func storedFreeVars(fn *ssa.Function) map[*ssa.FreeVar]bool {
+	out := map[*ssa.FreeVar]bool{}
+	for _, b := range fn.Blocks {
+		for _, ins := range b.Instrs {
+			if st, ok := ins.(*ssa.Store); ok {
+				if fv, ok := st.Addr.(*ssa.FreeVar); ok {
+					out[fv] = true
+				}
+			}
+		}
+	}
+	return out
 }
